@@ -5,6 +5,7 @@ import (
 	"sort"
 	"strconv"
 	"strings"
+	"verif/harness/hlib"
 
 	"github.com/unixpickle/model3d/model3d"
 )
@@ -37,7 +38,7 @@ func trisStr(ts [][3]int) string {
 }
 
 // runC09Mesh replays random operation histories on a real *model3d.Mesh.
-func runC09Mesh(c *Ctx) {
+func runC09Mesh(c *hlib.Ctx) {
 	pool := pool3(c)
 	hashes := make([]string, len(pool))
 	for i, k := range pool {
@@ -105,7 +106,7 @@ func runC09Mesh(c *Ctx) {
 		var ops, outs []string
 		nops := 2 + c.Rng.Intn(40)
 		builtAt := -1
-		res := Guard(func() string {
+		res := hlib.Guard(func() string {
 			for i := 0; i < nops; i++ {
 				f := c.Rng.Intn(nt)
 				switch c.Rng.Intn(16) {
